@@ -23,7 +23,7 @@ git -C /repo worktree remove --force "$wt"
 for n in vmod known-findings.txt run; do ln -sfn /verif/$n "$root/$n"; done
 rc=0
 for id in "$@"; do
-  out=$(VERIF_ROOT="$root" VERIF_OVERLAY="$root/ov.json" /verif/run "$id" "$tier" 2>&1 | grep -E "^(VIOLATION|OK|BUILD)" | cut -c1-260)
+  out=$(VERIF_ROOT="$root" VERIF_OVERLAY="$root/ov.json" /verif/run "$id" "$tier" 2>&1 | grep -E "^(VIOLATION|OK|BUILD|panic|INFRA|fatal)" | cut -c1-260)
   if echo "$out" | grep -q "^VIOLATION"; then echo "$tag $id CAUGHT :: $(echo "$out" | grep -c '^VIOLATION') violation line(s); first: $(echo "$out" | grep '^VIOLATION' | head -1)"; else echo "$tag $id MISSED :: $out"; rc=1; fi
 done
 rm -rf "$root"
